@@ -190,6 +190,9 @@ func init() {
 			if c.Rng.Intn(2) == 0 {
 				txlen = []int{0, 300, 100000}[c.Rng.Intn(3)]
 			}
+			if i%3 == 0 {
+				txlen = 100000 // a transmit buffer that always holds more than the whole message (never drained by Flush)
+			}
 			ra, rb := &statusRec{}, &statusRec{}
 			if i%3 == 1 {
 				// an updater that needs longer than the rest of the transfer for a progress report
